@@ -5,6 +5,7 @@ package sim
 import (
 	"runtime"
 	"sync"
+	"time"
 
 	"github.com/veraison/go-cose/verifsim"
 )
@@ -64,6 +65,10 @@ type SchedResult struct {
 	Hash        uint64 // hash of the (task, site) sequence
 	SwitchSites []int  // first sites at which control passed to another task
 	Violation   string // first monitor violation ("" if none)
+	// Aborted: the running task stopped making progress outside a yield point
+	// (it blocked, e.g. on a lock held by a parked task), the schedule was
+	// abandoned and the remaining tasks ran freely.  Such a run is not judged.
+	Aborted bool
 }
 
 var (
@@ -86,7 +91,39 @@ var (
 	sMonitor      func() string
 	sViolation    string
 	sViolated     bool
+	sAbort        bool
 )
+
+// stallLimit is how long the waiting tasks tolerate a running task that
+// passes no yield point before they abandon the schedule.  A single statement
+// of go-cose takes microseconds to a few milliseconds (a signature).
+const stallLimit = 3 * time.Second
+
+// sWait spins until it is this task's turn.  If the running task makes no
+// progress for stallLimit the schedule is abandoned (see SchedResult.Aborted).
+//
+//go:norace
+func sWait(me int32) {
+	spins := 0
+	var lastStep int64 = -1
+	var since time.Time
+	for sCurrent != me {
+		if sAbort {
+			return
+		}
+		runtime.Gosched()
+		spins++
+		if spins%2048 == 0 {
+			if sStep != lastStep {
+				lastStep = sStep
+				since = time.Now()
+			} else if time.Since(since) > stallLimit {
+				sAbort = true
+				return
+			}
+		}
+	}
+}
 
 //go:norace
 func sRand() uint64 {
@@ -138,7 +175,7 @@ func sCheck() {
 //go:norace
 func sYield(site int) {
 	me := sCurrent
-	if me < 0 {
+	if me < 0 || sAbort {
 		return
 	}
 	sStep++
@@ -159,21 +196,20 @@ func sYield(site int) {
 		sNSwitchSites++
 	}
 	sCurrent = next
-	for sCurrent != me {
-		runtime.Gosched()
-	}
+	sWait(me)
 }
 
 //go:norace
 func sStart(me int32) {
-	for sCurrent != me {
-		runtime.Gosched()
-	}
+	sWait(me)
 }
 
 //go:norace
 func sFinish(me int32) {
 	sAlive[me] = false
+	if sAbort {
+		return
+	}
 	if sCheckEvery >= 0 {
 		sCheck()
 	}
@@ -210,7 +246,7 @@ func RunConcurrent(cfg SchedConfig, tasks []func(), monitor func() string) Sched
 	sRng, sStick = cfg.Seed, cfg.Stick
 	sCheckEvery = cfg.CheckEvery
 	sMonitor = monitor
-	sViolation, sViolated = "", false
+	sViolation, sViolated, sAbort = "", false, false
 	sCurrent = -1
 	verifsim.YieldHook = sYield
 	var wg sync.WaitGroup
@@ -227,7 +263,7 @@ func RunConcurrent(cfg SchedConfig, tasks []func(), monitor func() string) Sched
 	wg.Wait()
 	verifsim.YieldHook = nil
 	sMonitor = nil
-	res := SchedResult{Steps: sStep, Switches: sSwitches, Hash: sHash, Violation: sViolation}
+	res := SchedResult{Steps: sStep, Switches: sSwitches, Hash: sHash, Violation: sViolation, Aborted: sAbort}
 	for i := int32(0); i < sNSwitchSites; i++ {
 		res.SwitchSites = append(res.SwitchSites, int(sSwitchSites[i]))
 	}
